@@ -174,6 +174,18 @@ def flipped_spec(lat, u, tree, ns, res, viol):
     r0 = call(0)
     if r0 is None:
         return out, None
+    # "SETTING the tree bonds according to the binary digits of n": the tree bonds of the result are a function of n
+    # alone; they must not depend on what the base configuration had on the tree edges (a *= instead of = would)
+    if k:
+        u1 = u0.copy()
+        u1[t] = -u1[t]
+        for nprobe in (0, (1 << k) - 1):
+            ra = call(nprobe)
+            rb = n_to_ujk_flipped(nprobe, u1, np.array(t))
+            if ra is not None and [int(rb[e]) for e in t] != [ra[e] for e in t]:
+                viol("flipped-depends-on-base", f"n_to_ujk_flipped(n={nprobe}) gives tree bonds {[ra[e] for e in t][:8]} on one base configuration and "
+                     f"{[int(rb[e]) for e in t][:8]} on the same base with its tree bonds negated: the tree bonds are not SET from the digits of n", {"n": int(nprobe)})
+                break
     pi, sg = {}, {}
     ok = True
     for i in range(k):
